@@ -170,6 +170,11 @@ def run(ctx):
         got = sorted((short(c.res), K.arg_renders(c)[1:]) for c in rl.calls() if (c.res or "").startswith(BR))
         ctx.ob("R-REG", "Reader::reset_and_limit", got == [("BufReadCounter::limit", ["limit"]), ("BufReadCounter::reset", [])],
                "reset_and_limit zeroes the counter and installs the given limit", where=rl.loc, detail=got)
+    # "parsing any byte stream returns an error or a value without panicking"; the chain and origin checks for any limit
+    from props import C04
+    entries = [n for n, r in f.fns.items() if r.get("has_body") and r.get("exported") and
+               (n.startswith("rrdp::") or n.startswith("<rrdp::") or n.startswith("xml::decode::"))]
+    C04.check_reachable_sites(ctx, f, entries, "the RRDP parsers, processors and notification-file checks", 120, 150)
     K.check_attr_values_unescaped(ctx, f)
     K.check_text_impls_escape(ctx, f)
     # the root element of the three RRDP documents is read under one and the same (header) limit
